@@ -33,18 +33,19 @@ def run(rep, prog, tier):
     if it is None:
         raise AnalysisError('PGPMessage.__iter__ vanished')
     rep.saw(fn=it)
-    S = 'self._signatures'
+    me = it.params[0]
+    S = '%s._signatures' % me
     grammar = {
         'cleartext': (False, [['EACH($1 in %s;$1)' % S]]),
-        'encrypted': (True, [['EACH($1 in %s;$1)' % S, 'EACH($2 in self._sessionkeys;$2)', 'self.message']]),
-        'literal': (False, [['OPS', 'self._message', 'self._mdc', 'SIGS'], ['OPS', 'self._message', 'SIGS']]),
+        'encrypted': (True, [['EACH($1 in %s;$1)' % S, 'EACH($2 in %s._sessionkeys;$2)' % me, '%s.message' % me]]),
+        'literal': (False, [['OPS', '%s._message' % me, '%s._mdc' % me, 'SIGS'], ['OPS', '%s._message' % me, 'SIGS']]),
     }
     for kind, (enc, allowed) in grammar.items():
-        sc = Scenario(inline=noinline, bind={'self.type': Const(kind), 'self.is_encrypted': Const(enc)})
+        sc = Scenario(inline=noinline, bind={'%s.type' % me: Const(kind), '%s.is_encrypted' % me: Const(enc)})
         outs = Interp(prog, sc).run(it)
         rep.analysed['paths'] += len(outs)
         for s in outs:
-            ys = alpha('\x00'.join(render(y) for y in s.yields)).split('\x00') if s.yields else []
+            ys = alpha('\x00'.join(each_of(render(y)) for y in s.yields)).split('\x00') if s.yields else []
             if kind != 'literal':
                 rep.check(ys in allowed, 'C20.1', 'PGPMessage.__iter__', '%s: %s' % (kind, ys),
                           {'cleartext': 'a cleartext message is followed by its signatures only',
@@ -60,19 +61,19 @@ def run(rep, prog, tier):
                       expected='OPS* literal [mdc] SIG*', found=ys, scenario=kind)
             if not (m_ops and m_sig):
                 continue
-            A, B = m_ops.group(2), m_sig.group(2)
+            A, B = uncopied(m_ops.group(2)), uncopied(m_sig.group(2))
             rev_ok = A in ('reversed(%s)' % B, '%s[::-1]' % B) and m_ops.group(1) == m_ops.group(3) and m_sig.group(1) == m_sig.group(3)
             rep.check(rev_ok and B == S, 'C20.2', 'PGPMessage.__iter__', 'one-pass over %s, signatures over %s' % (A, B),
                       'the one-pass packets must be the exact reverse of the trailing signatures over the message\'s own signature collection '
                       '(two independent sorts disagree on signatures with equal creation times)', where=it.where,
                       expected='reversed(%s) / %s' % (S, S), found='%s / %s' % (A, B), scenario=kind)
     # ---- C20.4 flag: decided on the paths of one iteration of the loop that yields the one-pass packets
-    _, recs = observe(prog, it, bind={'self.type': Const('literal'), 'self.is_encrypted': Const(False)})
+    _, recs = observe(prog, it, bind={'%s.type' % me: Const('literal'), '%s.is_encrypted' % me: Const(False)})
     ops_loops = [r for r in recs if any('%s.make_onepass()' % r.var in ys for _, _, _, ys in r.paths)]
     if len({id(r.node) for r in ops_loops}) != 1:
         raise AnalysisError('PGPMessage.__iter__: one-pass loop not found')
     for r in ops_loops:
-        m = re.match(r'^reversed\((.*)\)$', r.coll) or re.match(r'^(.*)\[::-1\]$', r.coll)
+        m = re.match(r'^reversed\((.*)\)$', uncopied(r.coll)) or re.match(r'^(.*)\[::-1\]$', uncopied(r.coll))
         base = m.group(1) if m else None
         pkt = '%s.make_onepass()' % r.var
         flagged, shape_ok = [], not r.conds
@@ -236,9 +237,14 @@ def run(rep, prog, tier):
                   'the file name must be written with the codec it is read with', where=lit.where)
     nw = M.methods['new']
     for sens, fn in ((True, "'_CONSOLE'"), (False, "os.path.basename('')")):
-        sc = Scenario(inline=noinline, join_unknown=True, args={'message': Sym('message', types={'str'}, nonnull=True)},
-                      axioms={"kwargs.pop('cleartext', False)": False, "kwargs.pop('sensitive', False)": sens,
-                              "(kwargs.pop('file', False) and os.path.isfile(message))": False, "kwargs.pop('file', False)": False})
+        kw = nw.node.args.kwarg.arg if nw.node.args.kwarg else 'kwargs'
+        options = {'cleartext': False, 'sensitive': sens, 'file': False}
+
+        def option(t, kw=kw, options=options):
+            """The caller's options, however they are taken out of the keyword arguments."""
+            m = re.match(r"^(?:bool\()?%s\.(?:pop|get)\('(\w+)'(?:, (?:False|None))?\)\)?$" % re.escape(kw), t)
+            return options.get(m.group(1)) if m else None
+        sc = Scenario(inline=noinline, join_unknown=True, args={'message': Sym('message', types={'str'}, nonnull=True)}, oracle=option)
         for s in Interp(prog, sc).run(nw):
             st = {p: v for p, v, l, _ in s.stores}
             lits = sorted({p[:-len('.filename')] for p in st if p.endswith('.filename')})
@@ -249,12 +255,31 @@ def run(rep, prog, tier):
             comp = [v for k, v in st.items() if k.endswith('._compression')]
             msgs = [c for c in s.calls if c[0].endswith('.text_to_bytes') and c[1] == ['message']]
             body = st.get('%s._contents' % L)
-            rep.check(len(msgs) >= 1 and body == '%s(message)' % msgs[0][0] and comp == ["kwargs.pop('compression', CompressionAlgorithm.ZIP)"],
+            rep.check(len(msgs) >= 1 and body == '%s(message)' % msgs[0][0] and
+                      comp in (["%s.pop('compression', CompressionAlgorithm.ZIP)" % kw], ["%s.get('compression', CompressionAlgorithm.ZIP)" % kw]),
                       'C20.6', 'PGPMessage.new', 'contents %s compression %s' % (body, comp),
                       'contents are the caller\'s message as octets; compression is the caller\'s choice (default ZIP)', where=nw.where)
             rep.check(any(c[0] == '%s.update_hlen' % L for c in s.calls) and '%s.mtime' % L in st and '%s.format' % L in st, 'C20.6', 'PGPMessage.new',
                       'time, format set; update_hlen', 'the literal packet gets its time and format, and its length is recomputed', where=nw.where)
             break
+
+
+def each_of(y):
+    """A re-yielded iterable (`yield from X`, rendered '*X') is the loop yielding its elements."""
+    if y.startswith('*EACH('):
+        return y[1:]
+    if y.startswith('*'):
+        return 'EACH($99 in %s;$99)' % y[1:]
+    return y
+
+
+def uncopied(coll):
+    """reversed(list(X)) / list(X) iterate X in X's order: a copy of a collection is the collection, as far as order goes."""
+    prev = None
+    while prev != coll:
+        prev = coll
+        coll = re.sub(r'\b(?:list|tuple)\(((?:[^()]|\([^()]*\))*)\)', r'\1', coll)
+    return coll
 
 
 def root_of(text):
